@@ -15,6 +15,7 @@ from vtlengine.DataTypes import (
     Number,
     TimeInterval,
     TimePeriod,
+    binary_implicit_promotion,
 )
 from vtlengine.DataTypes import String as StringType
 from vtlengine.DataTypes.TimeHandling import TimePeriodHandler
@@ -662,6 +663,8 @@ class StructureVisitor(ASTTemplate):
             c.data_type for c in input_ds.components.values() if c.role == Role.MEASURE
         ]
         m_type = measure_types[0] if measure_types else StringType
+        for other_type in measure_types[1:]:
+            m_type = binary_implicit_promotion(m_type, other_type)
         comps[new_measure] = self._make_comp(new_measure, m_type)
         # Viral attributes propagate to the unpivot result (issue #877).
         for name, comp in input_ds.components.items():
